@@ -510,7 +510,9 @@ int main(int argc, char** argv) {
         r = fin(uv_fs_sendfile(loop, &req, out, in, off, len, CB), &req);
         uv_fs_req_cleanup(&req);
       }
-      printf("sendfile %s\n", rs(r));
+      /* which errno a refused transfer reports depends on the copy_file_range/sendfile/emulation chain and is
+         not part of "equals POSIX" (sendfile(2) is not POSIX): only success + count, or failure */
+      printf("sendfile %s\n", r < 0 ? "ERR" : rs(r));
     } else {
       puts("bad-op");
     }
